@@ -74,8 +74,11 @@ Definition do_position (cmd : string) : result pos_out :=
 
 (* ---------- go command ---------- *)
 Record goargs := { ga_movetime : Z; ga_bleft : Z; ga_wleft : Z; ga_binc : Z; ga_winc : Z; ga_mtg : Z; ga_depth : Z }.
+(* "no movetime argument" (Go: moveTimeGiven = false) is encoded by a value that is not an int64, so that no parsed argument
+   (atoi yields int64 values only) can be taken for it *)
+Definition no_movetime : Z := 9223372036854775808.
 Definition go_defaults : goargs :=
-  {| ga_movetime := -1; ga_bleft := 100000000000; ga_wleft := 100000000000; ga_binc := 0; ga_winc := 0;
+  {| ga_movetime := no_movetime; ga_bleft := 100000000000; ga_wleft := 100000000000; ga_binc := 0; ga_winc := 0;
      ga_mtg := ExpectedFullMovesToBePlayed; ga_depth := MaxSearchDepth |}.
 (* intAfter(i): value of the token following the keyword *)
 Definition int_after (rest : list string) : option Z := match rest with [] => None | v :: _ => atoi v end.
@@ -120,7 +123,7 @@ Definition millis_for_move (white_to_move : bool) (a : goargs) : result Z :=
   Ok (Z.max (int64 (m - antiflagMillis)) 1).
 (* duration in nanoseconds between startTime and the deadline *)
 Definition allotted_ns (white_to_move : bool) (a : goargs) : result Z :=
-  if negb (ga_movetime a =? -1) then Ok (int64 (int64 (ga_movetime a - antiflagMillis) * 1000000))
+  if negb (ga_movetime a =? no_movetime) then Ok (int64 (int64 (ga_movetime a - antiflagMillis) * 1000000))
   else do m <- millis_for_move white_to_move a; Ok (int64 (1000000 * m)).
 
 (* ---------- score formatting (formatScore, closeToMate, fullMovesToMate, pliesToMate) ---------- *)
